@@ -146,12 +146,26 @@ EmitFindings(r, k, e, c, bytes, lx, step, g2, isBody, more) ==
           /\ ~\E j \in 1..Len(e.mu) : e.mu[j][1] = ValueClass(e.op) /\ (e.mu[j][2] + 1) \in FirstApplicable(c.muts, ValueClass(e.op))
        THEN <<V(r, k, "C15", "value not mutated by the first applicable mutator at rate 1")>> ELSE <<>>)
 
+(* opcodes without argument whose acceptability depends only on the stack *)
+ArglessOps == {B_POP, B_DUP, B_POP_MARK, B_TUPLE, B_LIST, B_DICT, B_FROZENSET, B_TUPLE1, B_TUPLE2, B_TUPLE3,
+               B_APPEND, B_APPENDS, B_SETITEM, B_SETITEMS, B_ADDITEMS, B_STACK_GLOBAL, B_REDUCE, B_NEWOBJ,
+               B_NEWOBJ_EX, B_BUILD, B_OBJ, B_BINPERSID, B_READONLY_BUFFER}
+
+(* Reference-guided forcing: once the simulated state has left the mirror relation in a run, the
+   implementation's enabled set is compared with what the REFERENCE would accept in its true state;
+   an enabled opcode the reference would reject is reported like an `impl-only` opcode, so the driver
+   forces it at this step and the resulting real generation is judged.                         *)
+RefRejected(e) ==
+    {op \in MaskSet(e.en) \cap ArglessOps : RefStep(st, op, -1).cls \in {"stack", "mark", "kind"}}
+
 (* conformance of the implementation with GenModel (drift, never a verdict) *)
 DriftFindings(r, k, e, c, g2) ==
     LET mc == ModelCfg(c) IN
       (IF e.hen = 1 /\ MaskSet(e.en) # EnabledSetM(mc, gs.stk, DOMAIN gs.memo, gs.m)
        THEN <<D(r, k, "enabled", <<"impl-only", MaskSet(e.en) \ EnabledSetM(mc, gs.stk, DOMAIN gs.memo, gs.m),
                                    "model-only", EnabledSetM(mc, gs.stk, DOMAIN gs.memo, gs.m) \ MaskSet(e.en)>>)>> ELSE <<>>)
+   \o (IF e.hen = 1 /\ cnt.mbroken /\ Safe(c) /\ ~broken /\ RefRejected(e) # {}
+       THEN <<D(r, k, "enabled", <<"impl-only", RefRejected(e), "model-only", {}>>)>> ELSE <<>>)
    \o (IF e.op >= 0 /\ Safe(c)
           /\ ~EffectOK(mc, e.op, gs, g2, e.kept, MemoAdds(e))
        THEN <<D(r, k, "effect", "state change differs from GenModel effect")>> ELSE <<>>)
